@@ -858,6 +858,8 @@ class ImplSpec:
         self.loops = {}
         self.rewrites = []
         self.silent = []
+        self.lazyfns = []        # deferred closure bodies checked as free functions (rule R11b)
+        self.freeprobes_at = []  # (fn, tags, regex of the foreign call, place that must NOT be lent at that call)
         self.borrowprobes_at = []   # (fn, tags, regex of the foreign call, place that must be lent at that call)
         self.yieldasserts = []   # (fn, regex of the call that hands control to foreign code, assertion)
         self.borrowprobes = {}   # (fn, loop ordinal) -> place expression that must be LENT while the loop runs
@@ -967,6 +969,58 @@ def normalize_params(sig, body, stats, byref=False):
     return sig, "".join(lets) + body
 
 
+def model_guard_scopes(body):
+    """Probe files only (rule R13).  In the real code `rc_deref()` / `rc_deref_mut()` return guards
+    (Ref / RefMut / MutexGuard) that are dropped at the END of their scope: a temporary in the scrutinee
+    of `if let` / `while let` / `match` lives until the end of that whole statement.  The stand-ins
+    return plain references, whose borrow ends at the last use; to give the borrow checker the scope of
+    the real guard, the scrutinee is bound to a local first and that local is used once more after the
+    statement:   if let P = <S> { B }   ==>   { let mut g_ = <S>; if let P = g_ { B } hold_(&g_); }
+    (only where the `if let` is a whole statement with no `else` value being used)."""
+    out = body
+    pos = 0
+    for _ in range(20):
+        masked = mask_trivia(out)
+        m = re.compile(r"(?<![\w])if\s+let\s+").search(masked, pos)
+        if not m:
+            break
+        eq = masked.find("=", m.end())
+        ob = eq
+        d = 0
+        # the block opener of the `if let`: first `{` at depth 0 after the `=`
+        k = eq + 1
+        while k < len(masked):
+            ch = masked[k]
+            if ch in "([":
+                d += 1
+            elif ch in ")]":
+                d -= 1
+            elif ch == "{" and d == 0:
+                break
+            k += 1
+        if k >= len(masked):
+            break
+        scrut = out[eq + 1:k]
+        pos = m.end()
+        if not re.search(r"\.\s*rc_deref(_mut)?\s*\(\s*\)", scrut):
+            continue
+        # statement position only: preceded by `;`, `{` or `}` and not followed by `else`
+        prev = masked[:m.start()].rstrip()[-1:] if masked[:m.start()].strip() else "{"
+        if prev not in ";{}":
+            continue
+        cb = match_close(out, k)
+        if re.match(r"\s*else\b", masked[cb + 1:]):
+            continue
+        pat = out[m.end():eq]
+        gm = re.match(r"^\s*([\w\.]+?\.\s*rc_deref(?:_mut)?\s*\(\s*\))(.*)$", scrut, re.S)
+        if not gm:
+            continue
+        new = "{ let mut guard_tmp_ = %s; if let %s= guard_tmp_%s %s hold_(&guard_tmp_); }" % (gm.group(1), pat, gm.group(2).rstrip(), out[k:cb + 1])
+        out = out[:m.start()] + new + out[cb + 1:]
+        pos = m.start() + len("{ let mut guard_tmp_ = ")
+    return out
+
+
 def process_fn(fn, spec, handle, stats, canary):
     name = fn["name"]
     sig = drop_attrs_and_docs(fn["sig"])
@@ -1012,6 +1066,21 @@ def process_fn(fn, spec, handle, stats, canary):
             m_ = ms_[0]
             k_ = max(masked.rfind(";", 0, m_.start()), masked.rfind("{", 0, m_.start()), masked.rfind("}", 0, m_.start()))
             body = body[:k_ + 1] + "\n        /*BORROWPROBE %s.call %s*/ let bp_ = &(%s);" % (name, tags_, place_) + body[k_ + 1:]
+    # the converse obligation: at a call that hands control to foreign code which may come back through
+    # the same cell, the cell must NOT be lent; in probe mode a mutable use of the cell is placed right
+    # before that statement and the borrow checker must ACCEPT it
+    if PROBE_MODE:
+        for (fname, tags_, rx_s, place_) in getattr(spec, "freeprobes_at", []):
+            if fname != name:
+                continue
+            masked = mask_trivia(body)
+            ms_ = list(re.finditer(rx_s, masked))
+            if not ms_:
+                raise ExtractError("free probe: call site of %s not found: %s" % (name, rx_s))
+            m_ = ms_[0]
+            k_ = max(masked.rfind(";", 0, m_.start()), masked.rfind("{", 0, m_.start()), masked.rfind("}", 0, m_.start()))
+            body = body[:k_ + 1] + "\n        /*FREEPROBE %s.call %s*/ { let fp_ = &mut (%s); }" % (name, tags_, place_) + body[k_ + 1:]
+        body = model_guard_scopes(body)
     # re-entry discipline: a proof assertion right before the statement that hands control to foreign
     # code (found by a declared regex, so that it survives renamings of the arguments); a yield point
     # that can no longer be found is a lost anchor (exit 2)
@@ -1312,6 +1381,27 @@ def extract_impl(path, header_lit, macro, args, handle, spec, stats, canary):
         if it["name"] in spec.skipfn or (spec.only is not None and it["name"] not in spec.only):
             continue
         out.append(process_fn(it, spec, handle, stats, canary))
+        for lf in spec.lazyfns:
+            if lf["parent"] != it["name"]:
+                continue
+            # R11b: the body of the deferred closure `Box::new(move || { BODY })` is checked as a free
+            # function over the same text; its captured variables are the declared parameters, the
+            # declared tail expression hands the captured composite back so that a postcondition can
+            # speak about it
+            lm = re.search(r"Box::new\(\s*move\s*\|\|\s*\{", mask_trivia(it["body"]))
+            if not lm:
+                stats.setdefault("yield_points_missing", []).append("%s: deferred closure of %s not found" % (lf["name"], it["name"]))
+                seen.add(lf["name"])
+                continue
+            ob_ = it["body"].index("{", lm.start())
+            cb_ = match_close(it["body"], ob_)
+            cbody = it["body"][ob_ + 1:cb_]
+            wh = ("\nwhere " + where) if where else ""
+            lsig = "fn %s<%s>(%s) -> (r: %s)%s" % (lf["name"], gen, lf["params"], lf["ret"], wh)
+            synth = dict(kind="fn", name=lf["name"], sig=lsig, body=cbody.rstrip() + "\n    " + lf["tail"] + "\n")
+            silent_out.append(process_fn(synth, spec, handle, stats, canary))
+            seen.add(lf["name"])
+            stats["R11b"] = stats.get("R11b", 0) + 1
         for (fname, muted) in spec.silent:
             if fname != it["name"]:
                 continue
@@ -1585,6 +1675,17 @@ def generate_(template_path, variant, canary=False):
                     i += 1
                 elif t[0] == "@@lazyclosures":
                     spec.lazy = t[1]
+                    i += 1
+                elif t[0] == "@@lazyfn":
+                    # @@lazyfn <parent fn> <name> :: <params> :: <result type> :: <tail expression>
+                    # (the contract of <name> follows as `@@fn <name>`)
+                    parts_ = [x.strip() for x in l.split("::", 1)[1].split(" :: ")]
+                    spec.lazyfns.append(dict(parent=t[1], name=t[2], params=parts_[0], ret=parts_[1], tail=parts_[2]))
+                    i += 1
+                elif t[0] == "@@freeprobe_at":
+                    parts_ = [x.strip() for x in l.split(" :: ")]
+                    tg_ = re.search(r"\[([C0-9, ]+)\]", parts_[0])
+                    spec.freeprobes_at.append((t[1], tg_.group(1).replace(" ", "") if tg_ else "-", parts_[1].strip(), parts_[2].strip()))
                     i += 1
                 elif t[0] == "@@sigrewrite":
                     rest_ = l.split("::", 1)[1]
